@@ -15,6 +15,7 @@ package c20
 import (
 	"bytes"
 	"context"
+	"crypto/sha1"
 	"encoding/json"
 	"errors"
 	"fmt"
@@ -69,9 +70,17 @@ type config struct {
 	// are then part of what is monitored. ManualFlushKey says how per-invocation flushing is configured
 	// ("" = left to the default, "true" = set in the file). DynHeaders puts http-transport.dynamic-headers into
 	// the file (README: not supported by the extension, i.e. without effect) and tags the datapoints with them.
-	Binary         bool     `json:"real_binary,omitempty"`
-	ManualFlushKey string   `json:"manual_flush_key,omitempty"`
-	DynHeaders     []string `json:"dynamic_headers_in_file,omitempty"`
+	// TimerMS sets http-transport.flush-interval (README: not respected with per-invocation flushing) to a few
+	// milliseconds instead of 1h. EventLatencyMS delays the upstream's answer to /v2/event (the internal statser's
+	// start / stop events). InternalStatser leaves statser-type at its default. BadUTF8 sends, in every invocation,
+	// a UDP datagram whose set member / tag is not valid UTF-8 (the parser accepts it; protobuf cannot carry it).
+	TimerMS         int      `json:"forwarder_timer_ms,omitempty"`
+	EventLatencyMS  int      `json:"upstream_event_latency_ms,omitempty"`
+	InternalStatser bool     `json:"internal_statser,omitempty"`
+	BadUTF8         bool     `json:"bad_utf8_datagrams,omitempty"`
+	Binary          bool     `json:"real_binary,omitempty"`
+	ManualFlushKey  string   `json:"manual_flush_key,omitempty"`
+	DynHeaders      []string `json:"dynamic_headers_in_file,omitempty"`
 }
 
 // ---------------------------------------------------------------------------------------------
@@ -160,6 +169,13 @@ func (w *world) upstreamHandler(rw http.ResponseWriter, req *http.Request) {
 	w.lastUpstream.Store(time.Now().UnixNano())
 	defer func() { w.lastUpstream.Store(time.Now().UnixNano()) }()
 	raw, _ := io.ReadAll(req.Body)
+	if strings.HasSuffix(req.URL.Path, "/v2/event") {
+		if w.cfg.EventLatencyMS > 0 {
+			time.Sleep(time.Duration(w.cfg.EventLatencyMS) * time.Millisecond) // upstream latency, not synchronisation
+		}
+		rw.WriteHeader(202)
+		return
+	}
 	var msg pb.RawMessageV2
 	_ = proto.Unmarshal(raw, &msg)
 	var ids []string
@@ -175,10 +191,8 @@ func (w *world) upstreamHandler(rw http.ResponseWriter, req *http.Request) {
 		rw.WriteHeader(202)
 		return
 	}
-	hash := fmt.Sprintf("%x", raw)
-	if len(hash) > 40 {
-		hash = fmt.Sprintf("%d-%s", len(raw), hash[len(hash)-40:])
-	}
+	sum := sha1.Sum(raw)
+	hash := fmt.Sprintf("%d-%x", len(raw), sum[:12])
 	b, ok := w.bodies[hash]
 	if !ok {
 		b = &body{hash: hash, ids: ids, script: w.cfg.Upstream[w.nonEmpty%len(w.cfg.Upstream)]}
@@ -361,19 +375,23 @@ func runExecution(r *mon.Run, cfg config) {
 		runScriptedStartupFailure(r, cfg)
 		return
 	}
-	where := runOnce(r, cfg)
-	if where == "" {
+	code := runOnce(r, cfg, false)
+	if code == "" {
 		return
 	}
-	if again := runOnce(r, cfg); again != "" {
-		r.Violation("extension-wedged:"+again, fmt.Sprintf("the extension never sent the GET event/next that %s, although every upstream request had been answered and the upstream had been idle for more than 30 s; reproduced by a second run of the same execution [%+v]", again, cfg), map[string]interface{}{"config": cfg})
+	// bounded progress / wall-clock dependent start-up: reproduce once before reporting
+	switch again := runOnce(r, cfg, true); {
+	case strings.HasPrefix(again, "wedged:"):
+		r.Violation("extension-"+again, fmt.Sprintf("the extension never sent the GET event/next that %s, although every upstream request had been answered and the upstream had been idle for more than 30 s; reproduced by a second run of the same execution [%+v]", strings.TrimPrefix(again, "wedged:"), cfg), map[string]interface{}{"config": cfg})
 		r.Eval(1)
-		return
+	case again == "" && code == "startup-failure":
+		// reported (or not reproduced) inside the confirming run
+	default:
+		r.Inconclusive("not-reproduced:" + code)
 	}
-	r.Inconclusive("get-never-arrived-once:" + where)
 }
 
-func runOnce(r *mon.Run, cfg config) (wedged string) {
+func runOnce(r *mon.Run, cfg config, confirm bool) (wedged string) {
 	r.Case("execution %+v", cfg)
 	logrus.SetOutput(io.Discard)
 	logger := logrus.New()
@@ -399,6 +417,10 @@ func runOnce(r *mon.Run, cfg config) (wedged string) {
 		compressionType = "no-such-compression"
 	}
 	slots, parsers := 1+rng.Intn(4), 1+rng.Intn(3)
+	timerText := "1h"
+	if cfg.TimerMS > 0 {
+		timerText = fmt.Sprintf("%dms", cfg.TimerMS)
+	}
 	var mock *clock.Mock
 	runErr := make(chan error, 1)
 	var cancel func()
@@ -409,13 +431,20 @@ func runOnce(r *mon.Run, cfg config) (wedged string) {
 			return
 		}
 		var f strings.Builder
-		fmt.Fprintf(&f, "metrics-addr = %q\nstatser-type = \"null\"\nmax-readers = 1\nmax-parsers = %d\nreceive-batch-size = 10\nflush-interval = \"1h\"\n", udpAddr, parsers)
+		fmt.Fprintf(&f, "metrics-addr = %q\nmax-readers = 1\nmax-parsers = %d\nreceive-batch-size = 10\nflush-interval = \"1h\"\n", udpAddr, parsers)
+		if !cfg.InternalStatser {
+			f.WriteString("statser-type = \"null\"\n")
+		}
 		fmt.Fprintf(&f, "lambda-extension-telemetry-address = %q\n", telemetryAddr)
 		if cfg.ManualFlushKey != "" {
 			fmt.Fprintf(&f, "lambda-extension-manual-flush = %s\n", cfg.ManualFlushKey)
 		}
-		fmt.Fprintf(&f, "http-servers = [\"ingest\"]\n\n[http.ingest]\naddress = %q\nenable-ingestion = true\nenable-healthcheck = false\n\n", ingestAddr)
-		fmt.Fprintf(&f, "[http-transport]\napi-endpoint = %q\ncompress = false\ncompression-type = %q\nmax-request-elapsed-time = \"%dms\"\nconsolidator-slots = %d\nflush-interval = \"1h\"\n", apiEndpoint, compressionType, cfg.WindowMS, slots)
+		if cfg.Failure == "http-server" {
+			fmt.Fprintf(&f, "http-servers = [\"ingest\", \"broken\"]\n\n[http.broken]\naddress = %q\nenable-healthcheck = false\n\n[http.ingest]\naddress = %q\nenable-ingestion = true\nenable-healthcheck = false\n\n", freeAddr(), ingestAddr)
+		} else {
+			fmt.Fprintf(&f, "http-servers = [\"ingest\"]\n\n[http.ingest]\naddress = %q\nenable-ingestion = true\nenable-healthcheck = false\n\n", ingestAddr)
+		}
+		fmt.Fprintf(&f, "[http-transport]\napi-endpoint = %q\ncompress = false\ncompression-type = %q\nmax-request-elapsed-time = \"%dms\"\nconsolidator-slots = %d\nflush-interval = %q\n", apiEndpoint, compressionType, cfg.WindowMS, slots, timerText)
 		if len(cfg.DynHeaders) > 0 {
 			fmt.Fprintf(&f, "dynamic-headers = [\"%s\"]\n", strings.Join(cfg.DynHeaders, "\", \""))
 		}
@@ -448,6 +477,11 @@ func runOnce(r *mon.Run, cfg config) (wedged string) {
 	} else {
 		v := viper.New()
 		v.Set("http-servers", []string{"ingest"})
+		if cfg.Failure == "http-server" {
+			v.Set("http-servers", []string{"ingest", "broken"})
+			v.Set("http.broken.address", freeAddr())
+			v.Set("http.broken.enable-healthcheck", false)
+		}
 		v.Set("http.ingest.address", ingestAddr)
 		v.Set("http.ingest.enable-ingestion", true)
 		v.Set("http.ingest.enable-healthcheck", false)
@@ -456,9 +490,13 @@ func runOnce(r *mon.Run, cfg config) (wedged string) {
 		v.Set("http-transport.compression-type", compressionType)
 		v.Set("http-transport.max-request-elapsed-time", fmt.Sprintf("%dms", cfg.WindowMS))
 		v.Set("http-transport.consolidator-slots", slots)
-		v.Set("http-transport.flush-interval", "1h")
+		v.Set("http-transport.flush-interval", timerText)
+		statserType := "null"
+		if cfg.InternalStatser {
+			statserType = "" // the default: internal statser, internal events enabled
+		}
 		srv := &statsd.Server{
-			FlushInterval: time.Hour, MaxReaders: 1, MaxParsers: parsers, MetricsAddr: udpAddr, StatserType: "null",
+			FlushInterval: time.Hour, MaxReaders: 1, MaxParsers: parsers, MetricsAddr: udpAddr, StatserType: statserType,
 			ReceiveBatchSize: 10, ServerMode: mode, Viper: v, TransportPool: transport.NewTransportPool(logger, v),
 		}
 		ext, err := lambda.NewExtension(logger, srv, lambda.Options{
@@ -486,24 +524,37 @@ func runOnce(r *mon.Run, cfg config) (wedged string) {
 
 	// ---- start-up failure: exactly one init/error, never a GET next
 	if cfg.Failure != "" {
+		var problems [][2]string
 		select {
 		case err := <-runErr:
 			gets, initErr := snapshot()
 			if err == nil && !cfg.Binary { // the executable logs the failure and exits normally
-				viol("startup-failure-not-reported", "Run returned nil although the server could not start")
+				problems = append(problems, [2]string{"startup-failure-not-reported", "Run returned nil although the server could not start"})
 			}
 			if initErr != 1 {
-				viol("init-error-count", fmt.Sprintf("%d POST init/error requests for one start-up failure (%v)", initErr, err))
+				problems = append(problems, [2]string{"init-error-count", fmt.Sprintf("%d POST init/error requests for one start-up failure (%v)", initErr, err)})
 			}
 			if len(gets) != 0 {
-				viol("next-after-startup-failure", fmt.Sprintf("%d GET event/next although start-up failed", len(gets)))
+				problems = append(problems, [2]string{"next-after-startup-failure", fmt.Sprintf("%d GET event/next although start-up failed", len(gets))})
 			}
-			r.Eval(1)
-			r.Event("startup_failures", 1)
-			r.Nontrivial(fmt.Sprintf("startup-failure:%s binary%v", cfg.Failure, cfg.Binary))
 		case <-time.After(60 * time.Second):
-			r.Inconclusive("startup-failure-run-did-not-return")
+			if !cfg.Binary {
+				r.Inconclusive("startup-failure-run-did-not-return")
+				return
+			}
+			gets, initErr := snapshot()
+			problems = append(problems, [2]string{"startup-failure-never-reported", fmt.Sprintf("60 s after its start the executable, whose server cannot start (%s), is still running: %d POST init/error, %d GET event/next", cfg.Failure, initErr, len(gets))})
 		}
+		if len(problems) > 0 && cfg.Binary && !confirm {
+			// the executable's start-up window is 100 ms of real time: reproduce before reporting
+			return "startup-failure"
+		}
+		for _, p := range problems {
+			viol(p[0], p[1])
+		}
+		r.Eval(1)
+		r.Event("startup_failures", 1)
+		r.Nontrivial(fmt.Sprintf("startup-failure:%s binary%v statser-internal%v", cfg.Failure, cfg.Binary, cfg.InternalStatser))
 		return
 	}
 
@@ -633,7 +684,7 @@ func runOnce(r *mon.Run, cfg config) (wedged string) {
 	}
 	if !waitGets(1) {
 		if idle() {
-			return "follows-the-initial-flush"
+			return "wedged:follows-the-initial-flush"
 		}
 		r.Inconclusive("first-get-never-arrived")
 		return
@@ -642,6 +693,14 @@ func runOnce(r *mon.Run, cfg config) (wedged string) {
 	// ---- invocations
 	for k := 1; k <= cfg.Invocations; k++ {
 		w.next <- "INVOKE"
+		if cfg.BadUTF8 {
+			// accepted by the parser, not representable in protobuf: must cost at most itself
+			if conn, err := net.Dial("udp", udpAddr); err == nil {
+				// one kind of invalid content per invocation (kinds must not mask one another)
+				_, _ = conn.Write([]byte([]string{"verif.bad:\xff\xfe\xfd|s\nverif.fine:1|c", "verif.badtag:1|c|#t:\xff\xfe\nverif.fine:1|c", "verif.badgauge:3|g|#\xc3\x28:x", "verif.badtimer:3|ms|#k:\xa0\xa1\nverif.bad2:ok\xf0\x28|s"}[k%4]))
+				_ = conn.Close()
+			}
+		}
 		send(rng.Intn(21))
 		// telemetry: other record types around exactly one runtimeDone, possibly spread over several posts
 		var recs []string
@@ -753,7 +812,7 @@ func runOnce(r *mon.Run, cfg config) (wedged string) {
 		}
 		if !waitGets(k + 1) {
 			if idle() {
-				return "follows-a-runtime-done-flush"
+				return "wedged:follows-a-runtime-done-flush"
 			}
 			r.Inconclusive("next-get-never-arrived")
 			return
@@ -836,7 +895,7 @@ func runOnce(r *mon.Run, cfg config) (wedged string) {
 		r.Event("real_binary_executions", 1)
 	}
 	if obligations > 0 && (retried > 0 || dropped > 0 || contains(cfg.Upstream, "slow") || contains(cfg.Upstream, "glacial")) {
-		r.Nontrivial(fmt.Sprintf("inv%d up%v init%v late%v senders%d retried%v dropped%v binary%v%s dyn%v", cfg.Invocations, cfg.Upstream, cfg.InitData, cfg.LateData, cfg.Senders, retried > 0, dropped > 0, cfg.Binary, cfg.ManualFlushKey, cfg.DynHeaders))
+		r.Nontrivial(fmt.Sprintf("inv%d up%v init%v late%v senders%d retried%v dropped%v binary%v%s dyn%v timer%v bad%v", cfg.Invocations, cfg.Upstream, cfg.InitData, cfg.LateData, cfg.Senders, retried > 0, dropped > 0, cfg.Binary, cfg.ManualFlushKey, cfg.DynHeaders, cfg.TimerMS > 0, cfg.BadUTF8))
 	}
 	if r.WantSample() {
 		var bl []map[string]interface{}
@@ -903,7 +962,8 @@ func TestCheck(t *testing.T) {
 			cfg.WindowMS = 30000
 		}
 		if (i+shard)%4 == 3 {
-			cfg.Failure = []string{"mode", "endpoint", "compression"}[rng.Intn(3)]
+			cfg.Failure = []string{"mode", "endpoint", "compression", "http-server"}[rng.Intn(4)]
+			cfg.InternalStatser = rng.Intn(2) == 0
 		}
 		// one execution per run with an upstream that needs several seconds (under the forwarder's 10 s client timeout)
 		if i == 0 && shard < r.Pick(1, 4) {
@@ -929,11 +989,33 @@ func TestCheck(t *testing.T) {
 		// the real executable: main(), GetConfiguration and NewServer are part of the run; half of these carry
 		// http-transport.dynamic-headers in the configuration file (documented as without effect in the extension)
 		// and datapoints tagged with them, against an upstream whose bodies alternate between slow and fast
+		// knobs outside the core: a forwarder timer of a few milliseconds (documented as not respected), datagrams
+		// that are not valid UTF-8, the default internal statser with a slow upstream for its events
+		if cfg.Failure == "" && !cfg.HoldSlot && cfg.GlacialMS == 0 && cfg.ManyNames == 0 {
+			switch rng.Intn(4) {
+			case 0:
+				cfg.TimerMS = 2 + rng.Intn(6)
+			case 1:
+				cfg.BadUTF8 = true
+			}
+		}
 		if i == 2 || i == 3 || (r.Thorough() && i%4 == 2) {
 			cfg.Binary, cfg.HoldSlot, cfg.GlacialMS, cfg.ManyNames = true, false, 0, 0
 			cfg.ManualFlushKey = []string{"", "true"}[rng.Intn(2)]
 			if cfg.Failure == "mode" {
-				cfg.Failure = []string{"endpoint", "compression"}[rng.Intn(2)] // main() fixes the server mode
+				cfg.Failure = []string{"endpoint", "compression", "http-server"}[rng.Intn(3)] // main() fixes the server mode
+			}
+			if i == 2 {
+				switch (shard + i/4) % 4 {
+				case 0:
+					cfg.Failure, cfg.TimerMS, cfg.Upstream = "", 3+rng.Intn(5), []string{"slow"}
+				case 1:
+					cfg.Failure, cfg.BadUTF8 = "", true
+				case 2:
+					// a start-up failure after the statser exists, the default statser, an upstream slower than
+					// the extension's 100 ms start-up window for the statser's events
+					cfg.Failure, cfg.InternalStatser, cfg.EventLatencyMS = "http-server", true, 300+rng.Intn(500)
+				}
 			}
 			if i%2 == 1 {
 				cfg.DynHeaders = [][]string{{"tenant"}, {"tenant", "region"}}[rng.Intn(2)]
